@@ -18,7 +18,10 @@ and a witness in the correspondence stream:
   4. `replace_account_storage` on a not existing address makes `basic` answer an (empty) account;
   5. after a committed self-destruct, a later plain touch of the address makes the *underlying*
      storage visible again.
-`State` is covered on its read side (account / storage / code caches, block-hash cache with
+The immutable path (`impl DatabaseRef for CacheDB`, which is separate Rust code) is modelled by its
+own functions (`CacheDB.basicRef`, `storageRef`, `codeByHashRef`, `blockHashRef`, `hasStorageRef`,
+`refQuery`); `ref_path_eq_mut_path` proves that it answers like the mutable path on every cache
+state. `State` is covered on its read side (account / storage / code caches, block-hash cache with
 pruning) and arbitrary stacks of wrappers by `stack_query`. Not covered here: `State::commit`
 (property C15) and error propagation (the generated underlying database is infallible). -/
 namespace Revm.Props.C20
@@ -29,6 +32,28 @@ open Revm.Model.Db Revm.Spec.Db
 /-- every data query through `Database` answers like the `&self` reading (`DatabaseRef`) -/
 theorem cachedb_query_answers_view (b : Data) (hb : Consistent b) (c : CacheDB) (q : DQuery) :
     (c.query b q.toQuery).2 = answer (c.view b) q := Proofs.Db.query_answer b hb c q
+
+/-- The two access paths of a `CacheDB` agree. `CacheDB.refQuery` is the model of
+`impl DatabaseRef for CacheDB` (`basic_ref`, `storage_ref`, `code_by_hash_ref`, `block_hash_ref`,
+default `has_storage_ref`; also what `&CacheDB`, `WrapDatabaseRef(&cache)` and a `CacheDB` stacked on
+`&cache` read), `CacheDB.query` the model of `impl Database for CacheDB`; they are separate
+functions, as in the Rust. For every underlying state, EVERY cache state `c` — so in particular
+every state a history of commits can produce: account self-destructed (`NotExisting`),
+self-destructed and re-created (`StorageCleared`), touched, storage written, `insert_account_info`,
+`replace_account_storage` — and each of the five queries: the immutable read answers what the
+mutable read answers, and still does after the mutable read has cached what it fetched (for every
+later query `q'`, not only the one just asked). -/
+theorem ref_path_eq_mut_path (b : Data) (hb : Consistent b) (c : CacheDB) (q : Query) :
+    c.refQuery b q = (c.query b q).2 ∧
+    ∀ q', (c.query b q).1.refQuery b q' = c.refQuery b q' :=
+  ⟨Proofs.Db.ref_eq_mut b hb c q, Proofs.Db.refQuery_after_query b hb c q⟩
+
+/-- in a stack: `r` queries (`DatabaseRef` on the `CacheDB` value, `&`, `WrapDatabaseRef`) read
+`Db.view`, which for a `CacheDB` layer is `refQuery` on the reading of what is below -/
+theorem stack_cache_ref_path (i : Db) (c : CacheDB) (q : Query) :
+    (Db.cache i c).view.answer q = c.refQuery i.view.toData q ∧
+    (Db.wrapRef (.cache i c)).query q = (Db.wrapRef (.cache i c), c.refQuery i.view.toData q) := by
+  cases q <;> exact ⟨rfl, rfl⟩
 
 /-- caching never changes an answer: whatever a query writes into the cache, the reading of all
 four data queries (for every address, slot, hash, number) is the same function as before -/
@@ -299,6 +324,22 @@ theorem cachedb_selfdestruct_then_touch_counterexample :
                           .commit [⟨1, exInfo, true, false, false, []⟩], .query (.storage 1 7)]
     crun exData CacheDB.new ops = [none, some (.word 0), none, some (.word 9)] ∧
     run exData ops = [none, some (.word 0), none, some (.word 0)] := by decide
+
+/-- the account the seeded-change class is about: underlying slot 7 of account 1 holds 9, the
+account is self-destructed through a commit and not re-created; both paths read zero, for the
+written-out cache state (non-vacuity of `ref_path_eq_mut_path` on a `NotExisting` entry) -/
+example :
+    let c := CacheDB.new.commit [⟨1, Info.default, true, true, false, []⟩]
+    (c.accounts 1).map (·.state) = some .notExisting ∧ exData.storage 1 7 = 9 ∧
+    c.refQuery exData (.storage 1 7) = .word 0 ∧ (c.query exData (.storage 1 7)).2 = .word 0 ∧
+    c.refQuery exData (.basic 1) = .info none ∧ (c.query exData (.basic 1)).2 = .info none := by decide
+
+/-- … and why `ref_path_eq_mut_path` assumes `Consistent`: over an underlying database that reports
+storage for an account it says does not exist, the two paths differ on a vacant entry (the mutable
+path asks `basic` first and answers 0, the immutable path forwards `storage_ref`) -/
+theorem ref_path_inconsistent_underlying_counterexample :
+    let b : Data := { exData with storage := fun _ _ => 6 }
+    CacheDB.new.refQuery b (.storage 9 0) = .word 6 ∧ (CacheDB.new.query b (.storage 9 0)).2 = .word 0 := by decide
 
 /-- why `Consistent` is assumed: if the underlying database reports storage for an account it
 says does not exist, `CacheDB` answers 0 where the database answers the value -/
